@@ -103,6 +103,7 @@ class DemoStorage(ConflictResolvingStorage):
         self.base = base
         self.close_base_on_close = close_base_on_close
 
+        self._temporary_changes = False
         if changes is None:
             self._temporary_changes = True
             changes = ZODB.MappingStorage.MappingStorage()
